@@ -38,7 +38,7 @@ pub struct Violation {
     pub detail: String,
 }
 
-#[derive(Clone, Debug, Default)]
+#[derive(Clone, Debug, Default, Serialize, Deserialize)]
 pub struct Outcome {
     pub labels: Vec<String>,
     pub nontrivial: bool,
@@ -82,6 +82,9 @@ pub trait Property {
     const ID: &'static str;
     /// evidence level: "exploration" or "fault_enumeration"
     const LEVEL: &'static str = "exploration";
+    /// run every case in a child executor process (a crash of the code under test, e.g. inside the
+    /// bundled C library, then costs one retry of one case instead of the whole shard)
+    const ISOLATE: bool = true;
     fn plan(tier: Tier) -> Plan;
     fn strategy(tier: Tier) -> BoxedStrategy<Self::Case>;
     /// interpret one case. `strict` is true in replay mode.
@@ -142,10 +145,26 @@ pub struct KnownFinding {
 
 pub fn load_known() -> Vec<KnownFinding> {
     let p = Path::new(VERIF_DIR).join("known_findings.json");
-    match std::fs::read_to_string(&p) {
+    let mut v: Vec<KnownFinding> = match std::fs::read_to_string(&p) {
         Ok(s) => serde_json::from_str(&s).expect("known_findings.json must parse"),
         Err(_) => vec![],
+    };
+    // development aid only (never set by the registered commands): "C05=sig1,C05=sig2"
+    if let Ok(extra) = std::env::var("DV_EXTRA_KNOWN") {
+        for item in extra.split(',') {
+            if let Some((prop, sig)) = item.split_once('=') {
+                v.push(KnownFinding {
+                    property: prop.trim().to_string(),
+                    signature: sig.trim().to_string(),
+                    status: "known".to_string(),
+                    commit: None,
+                    what: "DV_EXTRA_KNOWN (development)".to_string(),
+                    replay: None,
+                });
+            }
+        }
     }
+    v
 }
 
 #[derive(Serialize, Deserialize, Debug, Default, Clone)]
@@ -196,6 +215,7 @@ struct Args {
     tier: Tier,
     replay: Option<String>,
     worker: Option<(usize, String)>,
+    exec: bool,
     cases: Option<u32>,
     shards: Option<usize>,
     seed: u64,
@@ -209,6 +229,7 @@ fn parse_args() -> Args {
         },
         replay: None,
         worker: None,
+        exec: false,
         cases: None,
         shards: None,
         seed: std::env::var("VERIF_SEED")
@@ -234,6 +255,9 @@ fn parse_args() -> Args {
                 let out = argv[i + 2].clone();
                 i += 2;
                 a.worker = Some((shard, out));
+            }
+            "--exec" => {
+                a.exec = true;
             }
             "--cases" => {
                 i += 1;
@@ -268,7 +292,9 @@ fn scratch_root() -> PathBuf {
 /// entry point of every property binary
 pub fn main_for<P: Property>() -> ! {
     let args = parse_args();
-    let code = if let Some(path) = &args.replay {
+    let code = if args.exec {
+        executor::<P>(&args)
+    } else if let Some(path) = &args.replay {
         replay::<P>(&args, path)
     } else if let Some((shard, out)) = &args.worker {
         worker::<P>(&args, *shard, out)
@@ -332,6 +358,122 @@ fn run_guarded<P: Property>(case: &P::Case, ctx: &RunCtx) -> Outcome {
             o.violation("panic-in-case", msg);
             o
         }
+    }
+}
+
+/// child process: one JSON case per line on stdin, one JSON outcome per line on stdout
+fn executor<P: Property>(args: &Args) -> i32 {
+    use std::io::BufRead;
+    let mut ctx = make_ctx(args.tier, false);
+    let stdin = std::io::stdin();
+    let stdout = std::io::stdout();
+    for line in stdin.lock().lines() {
+        let line = match line {
+            Ok(l) => l,
+            Err(_) => break,
+        };
+        if line.trim().is_empty() {
+            continue;
+        }
+        #[derive(Deserialize)]
+        struct Req<C> {
+            replay: bool,
+            case: C,
+        }
+        let req: Req<P::Case> = match serde_json::from_str(&line) {
+            Ok(r) => r,
+            Err(e) => {
+                eprintln!("executor: bad request: {}", e);
+                return 3;
+            }
+        };
+        ctx.case_index += 1;
+        ctx.replay = req.replay;
+        let out = run_guarded::<P>(&req.case, &ctx);
+        let mut o = stdout.lock();
+        let _ = writeln!(o, "{}", serde_json::to_string(&out).unwrap());
+        let _ = o.flush();
+    }
+    let _ = std::fs::remove_dir_all(&ctx.scratch);
+    0
+}
+
+struct ExecClient {
+    child: Option<(std::process::Child, std::io::BufReader<std::process::ChildStdout>)>,
+    tier: Tier,
+    pub crashes: u64,
+}
+impl ExecClient {
+    fn new(tier: Tier) -> Self {
+        ExecClient {
+            child: None,
+            tier,
+            crashes: 0,
+        }
+    }
+    fn ensure(&mut self) {
+        if self.child.is_none() {
+            let exe = std::env::current_exe().unwrap();
+            let mut c = std::process::Command::new(exe)
+                .arg("--tier")
+                .arg(self.tier.name())
+                .arg("--exec")
+                .stdin(std::process::Stdio::piped())
+                .stdout(std::process::Stdio::piped())
+                .spawn()
+                .expect("spawn executor");
+            let out = std::io::BufReader::new(c.stdout.take().unwrap());
+            self.child = Some((c, out));
+        }
+    }
+    fn try_run(&mut self, line: &str) -> Option<Outcome> {
+        use std::io::BufRead;
+        self.ensure();
+        let (child, out) = self.child.as_mut().unwrap();
+        let stdin = child.stdin.as_mut().unwrap();
+        if writeln!(stdin, "{}", line).is_err() || stdin.flush().is_err() {
+            return None;
+        }
+        let mut resp = String::new();
+        match out.read_line(&mut resp) {
+            Ok(n) if n > 0 => serde_json::from_str(&resp).ok(),
+            _ => None,
+        }
+    }
+    /// runs a case in the executor; a dead executor is restarted and the case retried twice
+    fn run<C: Serialize>(&mut self, case: &C, replay: bool) -> Outcome {
+        let line = serde_json::to_string(&json!({"replay": replay, "case": case})).unwrap();
+        for _ in 0..3 {
+            if let Some(o) = self.try_run(&line) {
+                return o;
+            }
+            self.crashes += 1;
+            if let Some((mut c, _)) = self.child.take() {
+                let _ = c.kill();
+                let st = c.wait();
+                eprintln!("executor died ({:?}); restarting", st);
+            }
+        }
+        let mut o = Outcome::default();
+        o.discard = Some("executor-died-3-times".to_string());
+        o.violations.push(Violation {
+            signature: "executor-crash".to_string(),
+            detail: "the process running this case died three times in a row".to_string(),
+        });
+        o
+    }
+    fn stop(&mut self) {
+        if let Some((mut c, _)) = self.child.take() {
+            drop(c.stdin.take());
+            let _ = c.wait();
+        }
+    }
+}
+
+fn run_case<P: Property>(exec: &mut Option<ExecClient>, case: &P::Case, ctx: &RunCtx) -> Outcome {
+    match exec {
+        Some(e) => e.run(case, ctx.replay),
+        None => run_guarded::<P>(case, ctx),
     }
 }
 
@@ -399,6 +541,7 @@ fn worker<P: Property>(args: &Args, shard: usize, out_path: &str) -> i32 {
     let cases = args.cases.unwrap_or(plan.cases_per_shard);
     let mut ctx = make_ctx(args.tier, false);
     let mut merged = Merged::default();
+    let mut exec = if P::ISOLATE { Some(ExecClient::new(args.tier)) } else { None };
 
     // fixed cases are distributed round robin over the shards
     let nshards = args.shards.unwrap_or(plan.shards).max(1);
@@ -408,7 +551,7 @@ fn worker<P: Property>(args: &Args, shard: usize, out_path: &str) -> i32 {
             continue;
         }
         ctx.case_index += 1;
-        let out = run_guarded::<P>(case, &ctx);
+        let out = run_case::<P>(&mut exec, case, &ctx);
         let unknown = record::<P>(&mut merged, case, &out, &ctx);
         if let Some(v) = unknown.first() {
             let path = save_replay::<P>(case, v, args.seed);
@@ -444,11 +587,12 @@ fn worker<P: Property>(args: &Args, shard: usize, out_path: &str) -> i32 {
             };
             let case = tree.current();
             ctx.case_index += 1;
-            let out = run_guarded::<P>(&case, &ctx);
+            let out = run_case::<P>(&mut exec, &case, &ctx);
             let unknown = record::<P>(&mut merged, &case, &out, &ctx);
             if let Some(v) = unknown.first() {
                 // shrink: keep the same signature
-                let (min_case, min_v) = shrink::<P>(tree, v.clone(), &mut ctx, plan.max_shrink_iters);
+                let (min_case, min_v) =
+                    shrink::<P>(tree, v.clone(), &mut ctx, plan.max_shrink_iters, &mut exec);
                 let path = save_replay::<P>(&min_case, &min_v, args.seed);
                 merged.violations.push(ViolationReport {
                     signature: min_v.signature.clone(),
@@ -458,6 +602,10 @@ fn worker<P: Property>(args: &Args, shard: usize, out_path: &str) -> i32 {
                 break;
             }
         }
+    }
+    if let Some(e) = exec.as_mut() {
+        *merged.counters.entry("executor_restarts".into()).or_insert(0) += e.crashes;
+        e.stop();
     }
     let _ = std::fs::remove_dir_all(&ctx.scratch);
     let frag = Fragment { merged };
@@ -470,6 +618,7 @@ fn shrink<P: Property>(
     first: Violation,
     ctx: &mut RunCtx,
     max_iters: u32,
+    exec: &mut Option<ExecClient>,
 ) -> (P::Case, Violation) {
     let mut best_case = tree.current();
     let mut best_v = first;
@@ -484,7 +633,7 @@ fn shrink<P: Property>(
         iters += 1;
         let case = tree.current();
         ctx.case_index += 1;
-        let out = run_guarded::<P>(&case, ctx);
+        let out = run_case::<P>(exec, &case, ctx);
         let same = out
             .violations
             .iter()
@@ -502,8 +651,24 @@ fn shrink<P: Property>(
     (best_case, best_v)
 }
 
+/// removes scratch directories left behind by processes that no longer exist
+fn sweep_scratch() {
+    if let Ok(rd) = std::fs::read_dir(scratch_root()) {
+        for e in rd.filter_map(|e| e.ok()) {
+            let name = e.file_name().to_string_lossy().to_string();
+            let pid = name.trim_start_matches("coord").trim_start_matches('p');
+            if let Ok(pid) = pid.parse::<u32>() {
+                if !Path::new(&format!("/proc/{}", pid)).exists() {
+                    let _ = std::fs::remove_dir_all(e.path());
+                }
+            }
+        }
+    }
+}
+
 fn coordinator<P: Property>(args: &Args) -> i32 {
     let start = Instant::now();
+    sweep_scratch();
     let plan = P::plan(args.tier);
     let shards = args.shards.unwrap_or(plan.shards).max(1);
     let exe = std::env::current_exe().unwrap();
@@ -529,6 +694,7 @@ fn coordinator<P: Property>(args: &Args) -> i32 {
         .unwrap_or_default();
     replay_files.sort();
     let mut ctx = ctx;
+    let mut exec = if P::ISOLATE { Some(ExecClient::new(args.tier)) } else { None };
     for f in replay_files {
         if f.extension().map(|e| e != "json").unwrap_or(true) {
             continue;
@@ -542,7 +708,7 @@ fn coordinator<P: Property>(args: &Args) -> i32 {
             }
         };
         ctx.case_index += 1;
-        let out = run_guarded::<P>(&rf.case, &ctx);
+        let out = run_case::<P>(&mut exec, &rf.case, &ctx);
         replayed += 1;
         let unknown = record::<P>(&mut merged, &rf.case, &out, &ctx);
         for v in unknown {
@@ -554,6 +720,9 @@ fn coordinator<P: Property>(args: &Args) -> i32 {
         }
     }
 
+    if let Some(e) = exec.as_mut() {
+        e.stop();
+    }
     // generated tier
     let spawn = |shard: usize, out: &PathBuf| {
         let mut cmd = std::process::Command::new(&exe);
@@ -607,6 +776,7 @@ fn coordinator<P: Property>(args: &Args) -> i32 {
     *merged.counters.entry("worker_retries".into()).or_insert(0) += retries;
     let _ = std::fs::remove_dir_all(&tmp);
 
+    sweep_scratch();
     let wall = start.elapsed().as_secs_f64();
     write_evidence::<P>(args, &merged, replayed, wall);
 
